@@ -889,7 +889,7 @@ func (m *Machine) streamNow(extra *sym.Term) []StreamRec {
 		}
 		mv = mv2
 	}
-	var out []StreamRec
+	out := []StreamRec{} // non-nil even for a harness without any nondeterministic input (nil means: no model)
 	for _, e := range m.events {
 		switch e.kind {
 		case 0:
